@@ -908,6 +908,12 @@ class _DWorld:
         self.ddisc.register_computation(self.ddisc.discovery_computation.name, "agt_dir", "addr_dir")
         self.ddisc.register_agent("agt_dir", "addr_dir")
         for n in agents:
+            if n == "agt_dir":
+                # the agent that hosts the directory takes part in the history through its own Discovery, which is also
+                # the store the Directory works on (one object, two roles)
+                self.disc[n] = self.ddisc
+                self.alive.add(n)
+                continue
             d = dis.Discovery(n, "addr_" + n)
             d.use_directory("agt_dir", "addr_dir")
             self._wire(d.discovery_computation)
@@ -1501,6 +1507,11 @@ def _shapes_discovery(tier):
                kinds=["cb"], init=[["sub", "a1", "agent", "a2", "cb"]], sched="random", seeds=3),
           dict(agents=_A3, late=["a3"], leavers=["a3"], rejoin=True, subscribers=["a1"], agent_targets=["a3"], comps=[], families=["agent"],
                all_agents=True, n_ops=4, kinds=["nocb"])]
+    # --- the agent hosting the directory is an ordinary agent too: it publishes / withdraws replicas and follows computations
+    _DIRH = [["reg_comp", "a1", "c1"], ["sub", "a1", "computation", "c1", "nocb"], ["sub", "agt_dir", "computation", "c1", "nocb"]]
+    s += [dict(agents=["agt_dir", "a1"], comps=["c1"], families=["replica"], hosts=["a1"], replicators=["agt_dir", "a1"], subscribers=["a1"],
+               n_ops=3, init=_DIRH, kinds=["nocb", "cb"]),
+          dict(agents=["a1", "agt_dir"], comps=["c1"], families=["computation"], hosts=["agt_dir"], subscribers=["a1"], n_ops=3, kinds=["nocb", "cb"])]
     # --- replicas (the computation is hosted and followed from the start, as at every call site)
     s += [_ren(dict(agents=_A2, comps=["c1"], families=["replica"], n_ops=4, init=_HOSTED), _NAMES),
           dict(agents=_A2, comps=["c1"], families=["replica"], n_ops=3, init=_HOSTED, sched="random", seeds=3),
